@@ -51,6 +51,11 @@ type Exec struct {
 	Steps      int
 	Horizon    int
 	HitHorizon bool
+	// Livelock: the step horizon was hit and the environment's observable state (bytes moved, connections
+	// opened/closed, events delivered, harness steps) had not changed during the last half of the horizon:
+	// library threads kept running without any effect - a spin, not a long execution.
+	Livelock     bool
+	lastProgress int
 	Deadlock   bool
 	Parked     []string // description of threads parked at the end
 	Panic      string
@@ -126,6 +131,9 @@ func Yield(kind string, obj interface{}, enabled func() bool) {
 	t.steps++
 	if x.Steps > x.Horizon {
 		x.HitHorizon = true
+		if x.Steps-x.lastProgress > x.Horizon/2 {
+			x.Livelock = true
+		}
 		x.abort()
 		runtime.Goexit()
 	}
@@ -364,6 +372,13 @@ type Result struct {
 type Config struct {
 	Horizon int
 	Trace   bool
+}
+
+// EnvProgress is called by the environment (vnet, harness threads) whenever its observable state changes.
+func EnvProgress() {
+	if X != nil {
+		X.lastProgress = X.Steps
+	}
 }
 
 // globalResets re-initialise the package-level variables of the instrumented packages (registered by
